@@ -165,6 +165,19 @@ CHECKS = {
             "rewrite is the complete old or new list.",
             "Real sockets / selector replaced by fakes that reproduce register/modify/unregister and recv/send/close errors.",
             "DESIGN.md section 4, C19"),
+    'C20': (FE, "exhaustive fault enumeration over mutation families of a full protocol transcript, three fragmentations, victim "
+                "connection present, on one real node with the real store",
+            "A real node (file BlockStore, pending transaction) with an honest greeted connection holding a half-received frame "
+            "and an attacker connection before greeting / after greeting (same host) / while the node awaits its inventory. "
+            "Mutants of a transcript containing one valid instance of every message type: every byte position x {00,01,7f,80,ff,"
+            "b^01,b^80} (quick: 4 values), every truncation + close, truncation at field boundaries + next message, deletion / "
+            "duplication / isolation / transposition of messages, field-boundary splices, every message and data type value "
+            "0000..00ff, boundary length fields, huge / non-canonical list counts, magic bytes, seeded random supplement. Oracle: "
+            "nothing escapes the event handling; the victim's peer object, socket, registration, flags and receive buffer are "
+            "untouched and its pending frame still completes; chain state / pool / store change only by the transcript's "
+            "reference-valid block / transaction.",
+            "Sizes stay small (no resource exhaustion); byte strings outside the enumerated families are not covered.",
+            "DESIGN.md section 4, C20"),
 }
 
 NOT_YET = "check not built yet in this revision of /verif (work in progress; see DESIGN.md section 4)"
